@@ -47,6 +47,12 @@ structure StepOk (s : Store) (thr : List Thread) (u : Nat) (o : Out) : Prop wher
   tinv : TInv o.m u o.th.op o.th.pc
   rely : ∀ t, t ≠ u → ∀ a, thr[t]? = some a → a.pc.isReader = true → Rely t s o.m
 
+/-- the outcome given by its store and thread record -/
+theorem StepOk.mk' {s : Store} {thr : List Thread} {u : Nat} {o : Out} (m : Store) (x : Thread) (hm : o.m = m) (hx : o.th = x)
+    (sinv : SInv m (thr.set u x)) (tinv : TInv m u x.op x.pc)
+    (rely : ∀ t, t ≠ u → ∀ a, thr[t]? = some a → a.pc.isReader = true → Rely t s m) : StepOk s thr u o := by
+  subst hm; subst hx; exact ⟨sinv, tinv, rely⟩
+
 theorem set_self {thr : List Thread} {u : Nat} {th : Thread} (hu : thr[u]? = some th) : thr.set u th = thr := by
   apply List.ext_getElem?
   intro i
